@@ -71,8 +71,32 @@ type plainWorld struct {
 	main   *compiler.Code // the VM's own main code (the source of kind "a", a code object of its own)
 }
 
+// chainSource is a program that nests n+1 calls through deferred calls - the one way to reach the call-depth limit
+// itself (plain recursion runs out of frames first).
+func chainSource(n int) string {
+	return fmt.Sprintf("func chain(n) {\n if n > 0 { defer chain(n - 1) }\n return n\n}\nchain(%d)", n)
+}
+
 func newPlainWorld() (*plainWorld, string) {
 	w := &plainWorld{env: rt.NewEnv(map[string]any{"mode": 0, "strings": modstrings.Module(), "hits": []any{}, "tally": map[string]any{}}), shared: map[string]*compiler.Code{}}
+	// the longest chain of deferred calls that a fresh VM accepts: "chainmax" needs exactly all of the VM's call
+	// depth, "chainover" one more (refused at the limit). What a refused call costs must be given back.
+	if _, done := plainKinds["chainmax"]; !done {
+		best := 0
+		for n := 900; n <= 1100; n++ {
+			if c, _ := w.env.Compile(chainSource(n)); c != nil {
+				o := w.env.RunCode(c, nil, 0)
+				if o.Stage == "ok" {
+					best = n
+				}
+				o.Release()
+			}
+		}
+		if best == 0 {
+			return nil, "no working deferred chain found"
+		}
+		plainKinds["chainmax"], plainKinds["chainover"] = chainSource(best), chainSource(best+1)
+	}
 	for _, k := range plainAlphabetKinds(true) {
 		c, o := w.env.Compile(plainSource(k))
 		if c == nil {
@@ -85,7 +109,7 @@ func newPlainWorld() (*plainWorld, string) {
 }
 
 func plainAlphabetKinds(all bool) []string {
-	ks := []string{"a", "g", "g2", "gc", "in", "imp", "clo", "deff", "err0", "err2", "panic", "topover"}
+	ks := []string{"a", "g", "g2", "gc", "in", "imp", "clo", "deff", "err0", "err2", "panic", "topover", "chainmax", "chainover"}
 	if all {
 		ks = append(ks, "b", "overflow")
 	}
@@ -193,7 +217,10 @@ func plainAlphabet(thorough bool) []plainStep {
 			modes = []int{1, 2}
 		}
 		for _, md := range modes {
-			out = append(out, plainStep{Kind: k, Mode: md}, plainStep{Kind: k, Mode: md, Fresh: true})
+			out = append(out, plainStep{Kind: k, Mode: md})
+			if k != "chainmax" && k != "chainover" {
+				out = append(out, plainStep{Kind: k, Mode: md, Fresh: true})
+			}
 		}
 		if k == "gc" || k == "g" {
 			out = append(out, plainStep{Kind: k, Bare: true})
